@@ -1,5 +1,7 @@
 import G3D.Proofs.Xf
 import G3D.Proofs.Xf2
+import G3D.Proofs.XfAll
+import G3D.Props.C04
 /-! # C13 — queries commute with lattice isometries and uniform scaling  (partial only for intersection results of polygons / polyhedra)
     `SP` = the 48 signed axis permutations, `Xf` = signed permutation ∘ scaling by k > 0 ∘ translation. -/
 namespace G3D.Props.C13
@@ -64,4 +66,19 @@ theorem polyhedron_symmetry (T : Xf) (hk : 0 < T.k) (B : Polyhedron) (hv : ∀ p
 /-- the surface-integral volume of ANY closed surface scales by k³ (absolute value; det = ±1) -/
 theorem closed_surface_volume_scales (T : Xf) (hk : 0 < T.k) (fs : List (List V3)) (hc : ClosedSurface fs) (q q' : V3) :
     absQ (vol6 (T.surface fs) q') = T.k^3 * absQ (vol6 fs q) := T.abs_vol6_closed hk fs hc q q'
+
+/-! ### intersection with composite operands (from exactness: kernels K0–K3, K6) -/
+/-- flats and Valid polygons, all 36 ordered type pairs: `intersection(T a, T b)` is the transform of `intersection(a, b)` -/
+theorem intersection_equivariant_flat_polygon (T : Xf) (hk : 0 < T.k) (a b : Obj) (ha : OpOK a) (hb : OpOK b)
+    (hna : NotBothBodies a a) (hnb : NotBothBodies b b) :
+    ∃ o o', inter a b = .ok o ∧ inter (T.obj a) (T.obj b) = .ok o' ∧ ResOK o ∧ ResOK o' ∧
+      ∀ x, denOptB o' (T.pt x) ↔ denOptB o x := by
+  rw [Props.C04.inter_eq_ref, Props.C04.inter_eq_ref]; exact interRef_xf_flat_polygon T hk a b ha hb hna hnb
+
+/-- … and with one polyhedron operand, provided the transformed body is again admissible (`ExactHyp`, decidable) -/
+theorem intersection_equivariant_admissible (T : Xf) (hk : 0 < T.k) (a b : Obj) (ha : OpOK a) (hb : OpOK b)
+    (ha' : OpOK (T.obj a)) (hb' : OpOK (T.obj b)) (hnb : NotBothBodies a b) :
+    ∃ o o', inter a b = .ok o ∧ inter (T.obj a) (T.obj b) = .ok o' ∧ ResOK o ∧ ResOK o' ∧
+      ∀ x, denOptB o' (T.pt x) ↔ denOptB o x := by
+  rw [Props.C04.inter_eq_ref, Props.C04.inter_eq_ref]; exact interRef_xf T hk a b ha hb ha' hb' hnb
 end G3D.Props.C13
